@@ -249,40 +249,45 @@ Definition chunk_records (c : chunk) : list (list bytes) :=
 
 Definition nmetrics (c : chunk) : nat := length (ck_metrics c).
 
-(* WriteCSV: [nf] is numFields (0 = "no header written yet" -- also after a chunk
-   without metrics); result: the text written and whether an error is returned.
-   The writer is flushed after every chunk, so the rows of the chunks before a
-   schema change have reached the output *)
-Fixpoint write_loop (nf : nat) (cs : list chunk) : text * bool :=
+(* WriteCSV: the state is (headerWritten, numFields): None = no header written
+   yet, Some nf = header written for nf fields; result: the text written and
+   whether an error is returned.  The writer is flushed after every chunk, so the
+   rows of the chunks before a schema change have reached the output *)
+Fixpoint write_loop (st : option nat) (cs : list chunk) : text * bool :=
   match cs with
   | [] => ([], false)
   | c :: r =>
-      if Nat.eqb nf 0 then
-        let '(t, e) := write_loop (nmetrics c) r in
-        (render_record (field_names c) ++ render_records (chunk_records c) ++ t, e)
-      else if negb (Nat.eqb nf (nmetrics c)) then ([], true)
-      else let '(t, e) := write_loop nf r in (render_records (chunk_records c) ++ t, e)
+      match st with
+      | None =>
+          let '(t, e) := write_loop (Some (nmetrics c)) r in
+          (render_record (field_names c) ++ render_records (chunk_records c) ++ t, e)
+      | Some nf =>
+          if negb (Nat.eqb nf (nmetrics c)) then ([], true)
+          else let '(t, e) := write_loop (Some nf) r in (render_records (chunk_records c) ++ t, e)
+      end
   end.
-Definition write_csv (cs : list chunk) : text * bool := write_loop 0 cs.
+Definition write_csv (cs : list chunk) : text * bool := write_loop None cs.
 
 (* DumpCSV: the text still going to the current file, and the later files *)
-Fixpoint dump_loop (nf : nat) (cs : list chunk) : text * list text :=
+Fixpoint dump_loop (st : option nat) (cs : list chunk) : text * list text :=
   match cs with
   | [] => ([], [])
   | c :: r =>
       let body := render_record (field_names c) ++ render_records (chunk_records c) in
-      if Nat.eqb nf 0 then
-        let '(t, fs) := dump_loop (nmetrics c) r in (body ++ t, fs)
-      else if negb (Nat.eqb nf (nmetrics c)) then
-        let '(t, fs) := dump_loop (nmetrics c) r in ([], (body ++ t) :: fs)
-      else let '(t, fs) := dump_loop nf r in (render_records (chunk_records c) ++ t, fs)
+      match st with
+      | None => let '(t, fs) := dump_loop (Some (nmetrics c)) r in (body ++ t, fs)
+      | Some nf =>
+          if negb (Nat.eqb nf (nmetrics c)) then
+            let '(t, fs) := dump_loop (Some (nmetrics c)) r in ([], (body ++ t) :: fs)
+          else let '(t, fs) := dump_loop (Some nf) r in (render_records (chunk_records c) ++ t, fs)
+      end
   end.
 
 (* the contents of prefix.0.csv, prefix.1.csv, ...; no chunk, no file *)
 Definition dump_csv (cs : list chunk) : list text :=
   match cs with
   | [] => []
-  | _ => let '(t, fs) := dump_loop 0 cs in t :: fs
+  | _ => let '(t, fs) := dump_loop None cs in t :: fs
   end.
 
 (* ------------------------------------------------------------------ csv.go: import *)
